@@ -581,7 +581,7 @@ class Qcow2Suite(Suite):
                 "Open Scope string_scope.\nOpen Scope list_scope.\nOpen Scope Z_scope.\n")
 
     def generate(self, rng, tier):
-        n, nm = (1200, 400) if tier == "thorough" else (110, 40)
+        n, nm = (800, 250) if tier == "thorough" else (100, 35)
         return [q_gen(rng, tier) for _ in range(n)] + [q_gen(rng, tier, malformed=True) for _ in range(nm)]
 
     def impl(self, case):
@@ -938,7 +938,7 @@ class VhdxSuite(Suite):
     preamble = Qcow2Suite.preamble
 
     def generate(self, rng, tier):
-        n, nm = (700, 250) if tier == "thorough" else (70, 30)
+        n, nm = (450, 150) if tier == "thorough" else (60, 25)
         return [x_gen(rng, tier) for _ in range(n)] + [x_gen(rng, tier, malformed=True) for _ in range(nm)]
 
     def impl(self, case):
@@ -1285,7 +1285,7 @@ class VmdkSuite(Suite):
     preamble = Qcow2Suite.preamble
 
     def generate(self, rng, tier):
-        n, ns, nm = (900, 500, 200) if tier == "thorough" else (90, 50, 25)
+        n, ns, nm = (600, 350, 150) if tier == "thorough" else (80, 45, 20)
         out = [{"kind": "text", "malformed": None, "desc": d_gen(rng, tier)} for _ in range(n)]
         out += [s_gen(rng, tier) for _ in range(ns)] + [s_gen(rng, tier, malformed=True) for _ in range(nm)]
         return out
@@ -1515,7 +1515,7 @@ class HdrsSuite(Suite):
     preamble = Qcow2Suite.preamble
 
     def generate(self, rng, tier):
-        n, nm = (800, 200) if tier == "thorough" else (80, 20)
+        n, nm = (500, 120) if tier == "thorough" else (70, 20)
         return [h_gen(rng, tier) for _ in range(n)] + [h_gen(rng, tier, malformed=True) for _ in range(nm)]
 
     def impl(self, case):
@@ -1728,7 +1728,7 @@ class HddSuite(Suite):
     preamble = Qcow2Suite.preamble
 
     def generate(self, rng, tier):
-        n, nm = (900, 250) if tier == "thorough" else (90, 30)
+        n, nm = (600, 150) if tier == "thorough" else (80, 25)
         return [p_gen(rng, tier) for _ in range(n)] + [p_gen(rng, tier, malformed=True) for _ in range(nm)]
 
     def impl(self, case):
